@@ -5,6 +5,13 @@ property's alphabet; after every call the exception class, `signalingState`, the
 sections of `localDescription` and `remoteDescription` and the number of `signalingstatechange` events of
 BOTH peers are compared with the prediction of the compiled Lean model (Model/Jsep/Signaling.lean).
 The oracle re-evaluates the property on the observed trace alone with a small JSEP table written in Python.
+
+Descriptions are handed to the model as their text has them (session-level / media-level ice-ufrag, ice-pwd, setup per
+m-section); which sections are defective is decided by the model (Model/Jsep/Inherit.lean) and, independently, by the
+harness's own scanner for the oracle.  Defects are applied to every subset of the m-sections of multi-section
+descriptions (`defect_matrix`).  Besides call sequences there are schedules with TWO calls in flight on one connection
+(`race`): the model runs them segment by segment (Model/Jsep/Segments.lean), the oracle checks that once a close() has
+returned the public state of that connection never changes again.
 """
 from __future__ import annotations
 
@@ -14,7 +21,8 @@ import os
 
 from harness.check import Component, case_key
 
-LEAN_TARGETS = ["Aiortc.Props.C14"]
+LEAN_TARGETS = ["Aiortc.Props.C14", "Aiortc.Props.C14Flight"]
+AUDIT_PROPS = ["C14", "C14Flight"]
 DRIVERS = ["Signaling"]
 MANIFEST = {
     "technique": "Lean 4 refinement proof (abstract signalling model of RTCPeerConnection refines a JSEP spec, for all call "
@@ -25,7 +33,15 @@ MANIFEST = {
             "20-line JSEP machine, a failing call leaves the whole state unchanged, illegal calls raise InvalidStateError, "
             "defective/mismatched descriptions raise ValueError, closed is absorbing, no other exception class can occur. "
             "The tie drives real pairs (all sequences up to length 3 quick / 4 thorough over 20 symbols, plus random longer ones "
-            "over several media configurations) and diffs every step against the model.",
+            "over several media configurations) and diffs every step against the model. "
+            "Model/Jsep/Inherit.lean models how SessionDescription.parse resolves session-level vs media-level ice-ufrag/ice-pwd/"
+            "setup per m-section; Props/C14Flight.lean proves that one defective section anywhere (any subset, any position) gives "
+            "ValueError without effect and that session-level attributes cover all sections; the tie applies every defect kind to "
+            "every subset of the sections of audio/video/data descriptions (bundled or not), at media or session level, offers and "
+            "answers, in every signalling state. Model/Jsep/Segments.lean splits every call into its atomic segments between awaits; "
+            "Props/C14Flight.lean proves closed absorbing for any number of calls in flight under any schedule and that a call "
+            "overtaken by close() refines the JSEP machine as 'close, then the call'; the tie starts a call as a task, steps the "
+            "event loop k times, issues close() or another negotiation call, and compares with the model run on the observed schedule.",
     "note": "The model is of the tree with fixes/C14-dtls-params-missing.patch and fixes/C14-answer-unmatched-transceiver.patch "
             "applied; the unpatched tree fails the corpus witnesses (AttributeError instead of ValueError; state changed by a "
             "raising setLocalDescription(answer)). pranswer/rollback are outside the property's alphabet (modelled, tied by an "
@@ -39,27 +55,51 @@ ASSUMPTIONS = [
     "what createOffer puts into an offer (media sections) is an input of the model; createAnswer is modelled as echoing the "
     "(kind, mid) list of the remote offer, which holds when the remote offers are consistent with the negotiation history "
     "(m-sections keep their mid), as JSEP requires of the remote side",
-    "calls are awaited one after the other (no two negotiation calls in flight on the same connection)",
+    "the theorems of Props/C14.lean are about calls awaited one after the other; for calls in flight together "
+    "(Props/C14Flight.lean) only `closed is absorbing` and the refinement of a call overtaken by close() are claimed - two "
+    "NEGOTIATION calls in flight on one connection are modelled and tied (as the code behaves), but the property says nothing "
+    "about them and the oracle judges only the closed clause there",
+    "segment boundaries: as far as signalingState / the closed latch / the description slots go, setLocalDescription suspends only "
+    "in `await self.__gather()`, setRemoteDescription only between validation and the `__assertNotClosed()` that precedes its state "
+    "update, createOffer/createAnswer not at all, close() sets latch and state before its first await (read off the code; the tie "
+    "checks the consequences on every schedule it can produce by stepping the event loop, not the boundaries themselves)",
 ]
 TRUSTED_EXTRA = [
     "everything of setLocalDescription/setRemoteDescription after validation that does not touch signalingState or the description "
     "slots (transceiver/mid assignment, codec negotiation incl. OperationError, DTLS/ICE roles, gathering, __connect) is outside the "
     "model; the trace acceptance would show an exception escaping from it as a disagreement",
-    "the harness abstracts SDP text to (type, [(kind, mid, ice-ufrag?, ice-pwd?, rtcp-mux?, setup class)]) with its own line scanner",
+    "the harness abstracts SDP text to (type, session-level ice-ufrag?/ice-pwd?/setup class, [(kind, mid, own ice-ufrag?, own "
+    "ice-pwd?, own setup class, rtcp-mux?)]) with its own line scanner; Model/Jsep/Inherit.lean is a model of the corresponding "
+    "part of SessionDescription.parse (tied through the acceptance / rejection of every description the cases deliver)",
+    "which schedule a race took is observed from outside (had the first call returned before the second was issued; which of the "
+    "two returned first); the model is run on that schedule",
 ]
 RULE = ("case = media configuration of the two peers + call sequence [(peer, op, variant)] over {createOffer, createAnswer, "
         "setLocal(offer|answer|implicit), setRemote(offer|answer|mismatched|defective), close} x {peer 0, peer 1}; quick: every "
         "sequence of length <= 3 (data-channel pair; from length 3 on only those whose first call is on peer 0, the peers being "
-        "identical) + random sequences of length 4..12 over 5 configurations; thorough: every sequence of length <= 4 + more random ones; variants of mismatched/defective "
-        "drawn per occurrence; distinct = distinct (configuration, sequence)")
+        "identical) + random sequences of length 4..12 over 10 configurations (data channel / audio / video in several combinations, "
+        "asymmetric pairs, non-bundled delivery); thorough: every sequence of length <= 4 + more random ones; variants of "
+        "mismatched/defective drawn per occurrence: defect kind (no / empty ice-ufrag, ice-pwd, both, no setup, actpass in an answer, "
+        "no rtcp-mux) x subset of the m-sections x placement (media level only / also at session level), mismatch per section "
+        "(mid renamed / dropped, kind changed, section dropped / added / swapped); defect matrix: 5 multi-section configurations x 2 "
+        "peers x 8 prefixes (every signalling state, fresh and after a negotiation) x offer/answer x defect kind x placement, the "
+        "defect applied to EVERY non-empty subset of the sections (one call each) and followed by the legal call (quick: 280 drawn, "
+        "thorough: all 2400); mismatch matrix likewise; races: first call started as a task, event loop stepped k in "
+        "{0,1,2,3,4,6,9,14} times, second call awaited, then the first - all pairs (negotiation call, close) / (close, negotiation "
+        "call) / (close, close) x 8 prefixes x 3 configurations x 2 peers (quick: 420 drawn, thorough: all 5760) + pairs of "
+        "negotiation calls (120 / 2500 drawn), followed by calls that must find the connection closed; distinct = distinct "
+        "(configuration, sequence)")
 
 OPS = ["createOffer", "createAnswer", "setLocalOffer", "setLocalAnswer", "setLocalImplicit",
        "setRemoteOffer", "setRemoteAnswer", "setRemoteMismatched", "setRemoteDefective", "close"]
 EXT_OPS = ["setLocalTyped", "setRemoteTyped"]          # pranswer / rollback: outside the property's alphabet
 MISMATCH = ["mid", "extra", "drop"]
-DEFECTS = ["offer-noufrag", "offer-nopwd", "offer-nosetup", "offer-nomux", "answer-noufrag", "answer-nopwd",
-           "answer-nosetup", "answer-actpass", "answer-nomux", "badtype"]
-CFGS = ["dc", "audio", "both", "dc|both", "both|audio"]
+# defect kinds the validator knows: what is taken away from (emptied in) the selected m-sections; variant string =
+# "<offer|answer>-<kind>[-<sections>[-<m|s>]]" (sections: 'all' or digits; m = media level only, s = also at session level)
+DEFECT_KINDS = {"offer": ["noufrag", "nopwd", "nocred", "emptyufrag", "emptypwd", "nosetup", "nomux"],
+                "answer": ["noufrag", "nopwd", "nocred", "emptyufrag", "emptypwd", "nosetup", "actpass", "nomux"]}
+CFGS = ["dc", "audio", "both", "dc|both", "both|audio", "av", "avd", "avd/u", "va", "av|avd"]
+MULTI_CFGS = ["both", "av", "avd", "avd/u", "va"]
 SHORT = {"createOffer": "co", "createAnswer": "ca", "setLocalOffer": "sl", "setLocalAnswer": "sl", "setLocalImplicit": "si",
          "setRemoteOffer": "sr", "setRemoteAnswer": "sr", "setRemoteMismatched": "sr", "setRemoteDefective": "sr",
          "setLocalTyped": "sl", "setRemoteTyped": "sr", "close": "cl", "autoClose": "cl"}
@@ -76,10 +116,26 @@ def _join(lines):
     return "\r\n".join(lines) + "\r\n"
 
 
+def _scan_attr(level, l):
+    """record what ONE level (session part or one m-section) says about ICE credentials / DTLS setup"""
+    if l.startswith("a=ice-ufrag:"):
+        level["ufrag"] = len(l) > len("a=ice-ufrag:")
+    elif l.startswith("a=ice-pwd:"):
+        level["pwd"] = len(l) > len("a=ice-pwd:")
+    elif l.startswith("a=setup:"):
+        level["role"] = {"actpass": "a", "active": "d", "passive": "d"}.get(l[len("a=setup:"):], "?")
+
+
 def scan(sdp, typ):
-    """abstract description: {'id', 'type', 'media': [{'kind','mid','ufrag','pwd','mux','role'}]}"""
+    """abstract description: {'id', 'type', 'sess': level, 'media': [{'kind','mid','mux','own': level, 'ufrag','pwd','role'}]}
+
+    level = {'ufrag': None|False|True, 'pwd': None|False|True, 'role': None|'a'|'d'|'?'}: what the lines of that level say
+    (None = no such line, False = line with an empty value).  'ufrag'/'pwd'/'role' of a media section are the values in
+    force for that section: its own line if it has one, else the session-level one (RFC 8839 §5.4 / RFC 8842 §5:
+    a session-level ice-ufrag / ice-pwd / setup is the default of every m-section; a media-level line covers only its
+    own section).  `a=rtcp-mux` and `a=mid` are media-level only."""
     ident = 0
-    sess = {"ufrag": False, "pwd": False, "role": "n"}
+    sess = {"ufrag": None, "pwd": None, "role": None}
     media = []
     cur = None
     for l in _lines(sdp):
@@ -87,23 +143,20 @@ def scan(sdp, typ):
             v = l[2:]
             ident = int(v[1:]) if v.startswith("d") and v[1:].isdigit() else 0
         elif l.startswith("m="):
-            cur = {"kind": l[2:].split(" ")[0], "mid": "", "ufrag": sess["ufrag"], "pwd": sess["pwd"], "mux": False,
-                   "role": sess["role"]}
+            cur = {"kind": l[2:].split(" ")[0], "mid": "", "mux": False, "own": {"ufrag": None, "pwd": None, "role": None}}
             media.append(cur)
         elif l.startswith("a="):
-            tgt = cur if cur is not None else sess
-            if l.startswith("a=ice-ufrag:"):
-                tgt["ufrag"] = len(l) > len("a=ice-ufrag:")
-            elif l.startswith("a=ice-pwd:"):
-                tgt["pwd"] = len(l) > len("a=ice-pwd:")
-            elif l.startswith("a=setup:"):
-                v = l[len("a=setup:"):]
-                tgt["role"] = {"actpass": "a", "active": "d", "passive": "d"}.get(v, "?")
-            elif cur is not None and l == "a=rtcp-mux":
+            _scan_attr(cur["own"] if cur is not None else sess, l)
+            if cur is not None and l == "a=rtcp-mux":
                 cur["mux"] = True
             elif cur is not None and l.startswith("a=mid:"):
                 cur["mid"] = l[len("a=mid:"):]
-    return {"id": ident, "type": typ, "media": media}
+    for m in media:
+        own = m["own"]
+        m["ufrag"] = bool(own["ufrag"] if own["ufrag"] is not None else sess["ufrag"])
+        m["pwd"] = bool(own["pwd"] if own["pwd"] is not None else sess["pwd"])
+        m["role"] = own["role"] or sess["role"] or "n"
+    return {"id": ident, "type": typ, "sess": sess, "media": media}
 
 
 def keys_str(media):
@@ -111,40 +164,61 @@ def keys_str(media):
 
 
 def full_str(media):
+    """the values in force per section (what the validator has to look at)"""
     return "+".join(f"{m['kind']}.{m['mid']}.{int(m['ufrag'])}{int(m['pwd'])}{int(m['mux'])}{m['role']}" for m in media) or "-"
 
 
+def _tri(v):
+    return "-" if v is None else str(int(v))
+
+
+def _level_str(lv):
+    return _tri(lv["ufrag"]) + _tri(lv["pwd"]) + (lv["role"] or "-")
+
+
 def desc_str(a):
-    return f"{a['id']}/{a['type']}/{full_str(a['media'])}"
+    """wire form for the model: the RAW levels (session part + own lines of each section); the model resolves them
+    itself (Model/Jsep/Inherit.lean), the oracle uses the harness's own resolution in `scan`"""
+    med = "+".join(f"{m['kind']}.{m['mid']}.{_tri(m['own']['ufrag'])}{_tri(m['own']['pwd'])}{int(m['mux'])}{m['own']['role'] or '-'}"
+                   for m in a["media"]) or "-"
+    return f"{a['id']}/{a['type']}/{_level_str(a['sess'])}/{med}"
 
 
 def slot_str(a):
     return "-" if a is None else f"{a['id']}/{a['type']}/{keys_str(a['media'])}"
 
 
-def well_formed(a):
+def media_defects(a):
+    """per section: the list of what `__validate_description` has to object to (empty = the section is fine)"""
+    out = []
     for m in a["media"]:
+        bad = []
         if not (m["ufrag"] and m["pwd"]):
-            return False
+            bad.append("ice")
         if m["role"] == "n":
-            return False
-        if a["type"] in ("answer", "pranswer") and m["role"] != "d":
-            return False
+            bad.append("setup")
+        elif a["type"] in ("answer", "pranswer") and m["role"] != "d":
+            bad.append("role")
         if m["kind"] in ("audio", "video") and not m["mux"]:
-            return False
-    return True
+            bad.append("mux")
+        out.append(bad)
+    return out
+
+
+def well_formed(a):
+    return not any(media_defects(a))
 
 
 def retag(sdp, n):
     return _join([f"s=d{n}" if l.startswith("s=") else l for l in _lines(sdp)])
 
 
-def drop_attr(sdp, prefix):
-    return _join([l for l in _lines(sdp) if not l.startswith(prefix)])
-
-
 def set_setup(sdp, value):
     return _join([f"a=setup:{value}" if l.startswith("a=setup:") else l for l in _lines(sdp)])
+
+
+def unbundle(sdp):
+    return _join([l for l in _lines(sdp) if not l.startswith("a=group:BUNDLE")])
 
 
 def _sections(sdp):
@@ -165,14 +239,80 @@ def _rebuild(sess, secs):
     return _join(sess + [l for s in secs for l in s])
 
 
-def mismatch(sdp, variant):
+def _select(sel, n):
+    """section selector of a variant -> indices: 'all' or a digit string; digits beyond the description's sections are
+    dropped, an empty selection means the LAST section"""
+    if n == 0:
+        return []
+    if sel == "all":
+        return list(range(n))
+    idx = sorted({int(ch) for ch in sel if ch.isdigit() and int(ch) < n})
+    return idx or [n - 1]
+
+
+DEFECT_LINES = {"noufrag": ["a=ice-ufrag:"], "nopwd": ["a=ice-pwd:"], "nocred": ["a=ice-ufrag:", "a=ice-pwd:"],
+                "emptyufrag": ["a=ice-ufrag:"], "emptypwd": ["a=ice-pwd:"], "nosetup": ["a=setup:"], "actpass": ["a=setup:"],
+                "nomux": ["a=rtcp-mux"]}
+
+
+def apply_defect(sdp, what, sel="all", place="m"):
+    """Edit the description: attribute(s) of defect kind `what` are taken out of (or emptied in / set to actpass in) the
+    selected m-sections.  place 'm': nothing else; place 's': the attribute is ALSO written at session level (value of the
+    first selected section that had it), which for ice-ufrag / ice-pwd / setup legitimately covers the sections that lost
+    theirs (=> no defect), but not for rtcp-mux, an emptied value or actpass.  What the result lacks is decided by `scan`."""
     sess, secs = _sections(sdp)
-    if variant == "mid":
-        secs = [[(l + "9") if l.startswith("a=mid:") else l for l in s] for s in secs]
-    elif variant == "extra":
+    idx = _select(sel, len(secs))
+    if what == "nomux" and not any(l == "a=rtcp-mux" for i in idx for l in secs[i]):
+        what = "noufrag"       # no RTP section selected: nothing to take away, use another defect
+    prefixes = DEFECT_LINES[what]
+    hoisted = []
+    for i in idx:
+        keep = []
+        for l in secs[i]:
+            hit = next((p for p in prefixes if l.startswith(p)), None)
+            if hit is None:
+                keep.append(l)
+                continue
+            if not any(h.startswith(hit) for h in hoisted):
+                hoisted.append("a=setup:actpass" if what == "actpass" else l)
+            if what in ("emptyufrag", "emptypwd"):
+                keep.append(hit)
+            elif what == "actpass" and place != "s":
+                keep.append("a=setup:actpass")
+        secs[i] = keep
+    if place == "s":
+        sess = sess + hoisted
+    return _join(sess + [l for s in secs for l in s])
+
+
+def mismatch(sdp, variant):
+    """an answer whose (kind, mid) list differs from the offer's; `x@i` touches section i (mod number of sections)"""
+    sess, secs = _sections(sdp)
+    n = len(secs)
+    name, _, at = variant.partition("@")
+    i = (int(at) % n) if (at.isdigit() and n) else None
+    if name == "swap" and n < 2:
+        name, i = "mid", None
+    if name == "kind" and (i is None or secs[i][0].split(" ")[0] not in ("m=audio", "m=video")):
+        name = "mid"
+    pick = (lambda j: True) if i is None else (lambda j: j == i)
+    if name == "mid":
+        secs = [[(l + "9") if (l.startswith("a=mid:") and pick(j)) else l for l in s] for j, s in enumerate(secs)]
+    elif name == "nomid":
+        secs = [[l for l in s if not (l.startswith("a=mid:") and pick(j))] for j, s in enumerate(secs)]
+    elif name == "kind":
+        head = secs[i][0]
+        head = "m=video" + head[len("m=audio"):] if head.startswith("m=audio") else "m=audio" + head[len("m=video"):]
+        secs[i] = [head] + secs[i][1:]
+    elif name == "swap":
+        j = (i if i is not None else 0) % n
+        k = (j + 1) % n
+        secs[j], secs[k] = secs[k], secs[j]
+    elif name == "extra":
         secs = secs + [[("a=mid:7" if l.startswith("a=mid:") else l) for l in secs[-1]]]
-    elif variant == "drop":
-        secs = secs[:-1]
+    elif name == "drop":
+        j = n - 1 if i is None else i
+        secs = secs[:j] + secs[j + 1:]
     return _rebuild(sess, secs)
 
 
@@ -187,11 +327,23 @@ def _exc_name(exc):
     return "crash=" + n
 
 
+CFG_MEDIA = {"dc": "d", "audio": "a", "both": "ad", "av": "av", "avd": "avd", "va": "va"}
+
+
+def _cfg_parts(cfg):
+    """'x|y' = different media for the two peers; suffix '/u' = every description is delivered to the remote side without
+    its `a=group:BUNDLE` line (non-bundled negotiation: one transport per m-section at the receiver)"""
+    unb = cfg.endswith("/u")
+    if unb:
+        cfg = cfg[:-2]
+    parts = cfg.split("|") if "|" in cfg else [cfg, cfg]
+    return parts, unb
+
+
 class _Runner:
     def __init__(self, case):
         self.case = case
-        cfg = case["cfg"]
-        self.cfgs = cfg.split("|") if "|" in cfg else [cfg, cfg]
+        self.cfgs, self.unbundled = _cfg_parts(case["cfg"])
         self.next_id = 1
         self.ev = [0, 0]
         self.last_offer = [None, None]     # (sdp, type) created by / for the peer
@@ -218,6 +370,9 @@ class _Runner:
     def fabricate_answer(self, offer_sdp):
         return set_setup(offer_sdp, "active")
 
+    def wire(self, sdp):
+        return unbundle(sdp) if self.unbundled else sdp
+
     # ---- which description a call gets (see notes/C14.md) -------------------------------------------
     def local_offer(self, p):
         return self.last_offer[p], "offer"
@@ -231,49 +386,147 @@ class _Runner:
         q = 1 - p
         l = self.pcs[q].localDescription
         if self.pcs[q].signalingState == "have-local-offer" and l is not None:
-            return l.sdp, "offer"
-        return self.last_offer[q], "offer"
+            return self.wire(l.sdp), "offer"
+        return self.wire(self.last_offer[q]), "offer"
 
     def remote_answer(self, p):
         q = 1 - p
         l = self.pcs[q].localDescription
         if l is not None and l.type == "answer":
-            return l.sdp, "answer"
+            return self.wire(l.sdp), "answer"
         if self.last_answer[q] is not None:
-            return self.last_answer[q], "answer"
-        return self.fabricate_answer(self.last_offer[q]), "answer"
+            return self.wire(self.last_answer[q]), "answer"
+        return self.wire(self.fabricate_answer(self.last_offer[q])), "answer"
 
     def defective(self, p, variant):
         if variant == "badtype":
             sdp, _ = self.remote_offer(p)
             return sdp, "bogus"
-        typ, what = variant.split("-")
+        parts = variant.split("-")
+        typ, what = parts[0], parts[1]
+        sel = parts[2] if len(parts) > 2 else "all"
+        place = parts[3] if len(parts) > 3 else "m"
         sdp, _ = self.remote_offer(p) if typ == "offer" else self.remote_answer(p)
-        if what == "nomux" and "a=rtcp-mux" not in sdp:
-            what = "noufrag"
-        if what == "noufrag":
-            sdp = drop_attr(sdp, "a=ice-ufrag:")
-        elif what == "nopwd":
-            sdp = drop_attr(sdp, "a=ice-pwd:")
-        elif what == "nosetup":
-            sdp = drop_attr(sdp, "a=setup:")
-        elif what == "actpass":
-            sdp = set_setup(sdp, "actpass")
-        elif what == "nomux":
-            sdp = drop_attr(sdp, "a=rtcp-mux")
-        return sdp, typ
+        return apply_defect(sdp, what, sel, place), typ
+
+    def arg_for(self, p, op, var):
+        """(sdp, type) handed to the call, or None for calls without a description argument"""
+        if op == "setLocalOffer":
+            return self.local_offer(p)
+        if op == "setLocalAnswer":
+            return self.local_answer(p)
+        if op == "setRemoteOffer":
+            s, t = self.remote_offer(p)
+        elif op == "setRemoteAnswer":
+            s, t = self.remote_answer(p)
+        elif op == "setRemoteMismatched":
+            s, t = self.remote_answer(p)
+            s = mismatch(s, var)
+        elif op == "setRemoteDefective":
+            s, t = self.defective(p, var)
+        elif op == "setLocalTyped":
+            s, _ = self.local_offer(p) if var == "rollback" else self.local_answer(p)
+            t = var
+        elif op == "setRemoteTyped":
+            s, _ = self.remote_offer(p) if var == "rollback" else self.remote_answer(p)
+            t = var
+        else:
+            return None
+        return retag(s, self.fresh()), t
+
+    async def invoke(self, p, op, arg, info):
+        """one API call on peer p; -> result string; `info['created']` = abstract description a create* call returned"""
+        from aiortc import RTCSessionDescription
+
+        pc = self.pcs[p]
+        if op == "createOffer":
+            d = await pc.createOffer()
+            self.last_offer[p] = retag(d.sdp, self.fresh())
+            info["created"] = scan(d.sdp, d.type)
+            return f"created={d.type}/{full_str(info['created']['media'])}"
+        if op == "createAnswer":
+            d = await pc.createAnswer()
+            self.last_answer[p] = retag(d.sdp, self.fresh())
+            info["created"] = scan(d.sdp, d.type)
+            return f"created={d.type}/{full_str(info['created']['media'])}"
+        if op == "setLocalImplicit":
+            await pc.setLocalDescription()
+            l = pc.localDescription
+            if l is not None:
+                if l.type == "offer":
+                    self.last_offer[p] = retag(l.sdp, self.fresh())
+                else:
+                    self.last_answer[p] = retag(l.sdp, self.fresh())
+            return "ok"
+        if op in ("setLocalOffer", "setLocalAnswer", "setLocalTyped"):
+            await pc.setLocalDescription(RTCSessionDescription(sdp=arg[0], type=arg[1]))
+            return "ok"
+        if op.startswith("setRemote"):
+            await pc.setRemoteDescription(RTCSessionDescription(sdp=arg[0], type=arg[1]))
+            return "ok"
+        if op == "close":
+            await self.real_close[p]()
+            return "ok"
+        raise RuntimeError("unknown op " + op)
+
+    async def race(self, p, first, second, k):
+        """Two calls in flight on peer p: `first` is started as a task, the event loop is stepped k times (k = 0: the task has
+        not run yet), then `second` is awaited, then `first`.  Everything observable is recorded: the public state of
+        both peers at the moment each call returned, who returned first, whether `first` had finished before `second` was
+        issued, and the state after everything (plus a few more turns of the loop) has settled."""
+        import asyncio
+
+        ops = [first, second]
+        args = [self.arg_for(p, c[0], c[1] if len(c) > 1 else None) for c in ops]
+        infos = [{}, {}]
+        order = []
+        at_return = [None, None]
+        results = [None, None]
+
+        async def wrapped(i):
+            try:
+                results[i] = await self.invoke(p, ops[i][0], args[i], infos[i])
+            except Exception as exc:  # noqa: BLE001
+                results[i] = _exc_name(exc)
+            order.append(i)
+            at_return[i] = [self.obs(0), self.obs(1)]
+
+        task = asyncio.ensure_future(wrapped(0))
+        for _ in range(k):
+            await asyncio.sleep(0)
+        first_done = task.done()
+        await wrapped(1)
+        await task
+        settled = [self.obs(0), self.obs(1)]
+        for _ in range(6):
+            await asyncio.sleep(0)
+        later = [self.obs(0), self.obs(1)]
+        if k == 0:
+            sched = "ba" + ("ab" if order == [0, 1] else "ba")
+        elif first_done:
+            sched = "aab"     # both segments of the first call, then the second call
+        else:
+            sched = "ab" + ("ab" if order == [0, 1] else "ba")
+        return {"calls": [{"op": ops[i][0], "var": ops[i][1] if len(ops[i]) > 1 else None,
+                           "arg": scan(args[i][0], args[i][1]) if args[i] is not None else None,
+                           "created": infos[i].get("created"), "res": results[i], "at_return": at_return[i]}
+                          for i in (0, 1)],
+                "order": order, "sched": sched, "k": k, "settled": settled, "later": later}
 
     async def run(self):
-        from aiortc import RTCPeerConnection, RTCSessionDescription
+        import asyncio
+
+        from aiortc import RTCPeerConnection
 
         self.pcs = [RTCPeerConnection(), RTCPeerConnection()]
         steps = []
         try:
             for p, pc in enumerate(self.pcs):
-                if self.cfgs[p] in ("audio", "both"):
-                    pc.addTransceiver("audio")
-                if self.cfgs[p] in ("dc", "both"):
-                    pc.createDataChannel("c14")
+                for ch in CFG_MEDIA[self.cfgs[p]]:
+                    if ch == "d":
+                        pc.createDataChannel("c14")
+                    else:
+                        pc.addTransceiver({"a": "audio", "v": "video"}[ch])
 
                 def on_change(p=p):
                     self.ev[p] += 1
@@ -281,7 +534,7 @@ class _Runner:
                 # aiortc closes a connection by itself (`ensure_future(self.close())` in __updateConnectionState) once
                 # all its DTLS transports were closed by the remote side.  That internal call is an event of the
                 # environment; it is deferred to the next step boundary and recorded as an `autoClose` step, so that
-                # calls stay sequential (the property is about call sequences, not about concurrent calls).
+                # the harness decides which calls are in flight together.
                 self.real_close.append(pc.close)
 
                 async def deferred(p=p):
@@ -305,80 +558,30 @@ class _Runner:
                                       "before": before, "after": [self.obs(0), self.obs(1)]})
                 p, op = call[0], call[1]
                 var = call[2] if len(call) > 2 else None
-                pc = self.pcs[p]
                 if (self.cfgs[0] != self.cfgs[1] and op == "setRemoteOffer"
                         and self.pcs[1 - p].signalingState != "have-local-offer"):
                     # asymmetric pair: only an offer that the other peer has applied locally is consistent with the
                     # negotiation history (m-sections keep their mid); nothing to deliver otherwise -> the step is void
                     continue
                 before = [self.obs(0), self.obs(1)]
-                arg = None       # (sdp, type) handed to the call
-                if op == "setLocalOffer":
-                    arg = self.local_offer(p)
-                elif op == "setLocalAnswer":
-                    arg = self.local_answer(p)
-                elif op == "setRemoteOffer":
-                    s, t = self.remote_offer(p)
-                    arg = (retag(s, self.fresh()), t)
-                elif op == "setRemoteAnswer":
-                    s, t = self.remote_answer(p)
-                    arg = (retag(s, self.fresh()), t)
-                elif op == "setRemoteMismatched":
-                    s, t = self.remote_answer(p)
-                    arg = (retag(mismatch(s, var), self.fresh()), t)
-                elif op == "setRemoteDefective":
-                    s, t = self.defective(p, var)
-                    arg = (retag(s, self.fresh()), t)
-                elif op == "setLocalTyped":
-                    s, _ = self.local_offer(p) if var == "rollback" else self.local_answer(p)
-                    arg = (retag(s, self.fresh()), var)
-                elif op == "setRemoteTyped":
-                    s, _ = self.remote_offer(p) if var == "rollback" else self.remote_answer(p)
-                    arg = (retag(s, self.fresh()), var)
-                arg_abs = None
-                if arg is not None:
-                    arg_abs = scan(arg[0], arg[1])
-                created = None
+                if op == "race":
+                    r = await self.race(p, call[2], call[3], call[4])
+                    steps.append({"p": p, "op": "race", "var": None, "arg": None, "created": None, "res": "race",
+                                  "race": r, "before": before, "after": r["later"]})
+                    continue
+                arg = self.arg_for(p, op, var)       # (sdp, type) handed to the call
+                arg_abs = scan(arg[0], arg[1]) if arg is not None else None
+                info = {}
                 try:
-                    if op == "createOffer":
-                        d = await pc.createOffer()
-                        n = self.fresh()
-                        self.last_offer[p] = retag(d.sdp, n)
-                        created = scan(d.sdp, d.type)
-                        res = f"created={d.type}/{full_str(created['media'])}"
-                    elif op == "createAnswer":
-                        d = await pc.createAnswer()
-                        n = self.fresh()
-                        self.last_answer[p] = retag(d.sdp, n)
-                        created = scan(d.sdp, d.type)
-                        res = f"created={d.type}/{full_str(created['media'])}"
-                    elif op == "setLocalImplicit":
-                        await pc.setLocalDescription()
-                        l = pc.localDescription
-                        if l.type == "offer":
-                            self.last_offer[p] = retag(l.sdp, self.fresh())
-                        else:
-                            self.last_answer[p] = retag(l.sdp, self.fresh())
-                        res = "ok"
-                    elif op in ("setLocalOffer", "setLocalAnswer", "setLocalTyped"):
-                        await pc.setLocalDescription(RTCSessionDescription(sdp=arg[0], type=arg[1]))
-                        res = "ok"
-                    elif op.startswith("setRemote"):
-                        await pc.setRemoteDescription(RTCSessionDescription(sdp=arg[0], type=arg[1]))
-                        res = "ok"
-                    elif op == "close":
-                        await self.real_close[p]()
-                        res = "ok"
-                    elif op == "settle":      # environment: let ICE / DTLS / SCTP run (no call is made)
-                        import asyncio
+                    if op == "settle":      # environment: let ICE / DTLS / SCTP run (no call is made)
                         await asyncio.sleep(0.4)
                         res = "ok"
                     else:
-                        raise RuntimeError("unknown op " + op)
+                        res = await self.invoke(p, op, arg, info)
                 except Exception as exc:  # noqa: BLE001 - every exception class is an observation
                     res = _exc_name(exc)
                 after = [self.obs(0), self.obs(1)]
-                steps.append({"p": p, "op": op, "var": var, "arg": arg_abs, "created": created, "res": res,
+                steps.append({"p": p, "op": op, "var": var, "arg": arg_abs, "created": info.get("created"), "res": res,
                               "before": before, "after": after})
         finally:
             for i, pc in enumerate(self.pcs):
@@ -391,6 +594,19 @@ class _Runner:
 
 def _quiet_loop_handler(loop, context):
     pass
+
+
+def _call_line(op, arg, created, res, local_after):
+    """model-driver form of one call (without the peer)"""
+    code = SHORT[op]
+    if code == "co":
+        return "co:" + (keys_str(created["media"]) if created else "-")
+    if code == "si":
+        km = keys_str(local_after["media"]) if res == "ok" and local_after is not None and local_after["type"] == "offer" else "-"
+        return "si:" + km
+    if code in ("sl", "sr"):
+        return f"{code}:{desc_str(arg)}"
+    return code
 
 
 def run_case(case):
@@ -413,20 +629,16 @@ def run_case(case):
     for st in steps:
         if st["op"] == "settle":
             continue
-        out.append(st["res"] + "|" + _Runner.obs_str(st["after"][0]) + "|" + _Runner.obs_str(st["after"][1]))
-        code = SHORT[st["op"]]
         p = st["p"]
-        if code == "co":
-            km = keys_str(st["created"]["media"]) if st["created"] else "-"
-            line.append(f"{p}:co:{km}")
-        elif code == "si":
-            l = st["after"][p]["local"]
-            km = keys_str(l["media"]) if st["res"] == "ok" and l is not None and l["type"] == "offer" else "-"
-            line.append(f"{p}:si:{km}")
-        elif code in ("sl", "sr"):
-            line.append(f"{p}:{code}:{desc_str(st['arg'])}")
+        tail = "|" + _Runner.obs_str(st["after"][0]) + "|" + _Runner.obs_str(st["after"][1])
+        if st["op"] == "race":
+            r = st["race"]
+            out.append("&".join(c["res"] for c in r["calls"]) + tail)
+            parts = [_call_line(c["op"], c["arg"], c["created"], c["res"], st["after"][p]["local"]) for c in r["calls"]]
+            line.append(f"{p}:par:{r['sched']}~{parts[0]}~{parts[1]}")
         else:
-            line.append(f"{p}:{code}")
+            out.append(st["res"] + tail)
+            line.append(f"{p}:" + _call_line(st["op"], st["arg"], st["created"], st["res"], st["after"][p]["local"]))
     return ";".join(out) or "-", "signaling run " + (";".join(line) or "-"), steps
 
 
@@ -468,8 +680,8 @@ def judge_step(st, ext_seen=False):
         return f"closed is not absorbing: {op} moved a closed connection to {a['state']}"
     if op == "settle":
         return None if _same(b, a) else f"the connection changed without a call: {_Runner.obs_str(b)} -> {_Runner.obs_str(a)}"
-    if op in EXT_OPS or ext_seen:
-        return None
+    if op in EXT_OPS or (ext_seen and b["state"] != "closed"):
+        return None       # (a closed connection is judged whatever happened before: every clause below holds for it)
     failed = not (res == "ok" or res.startswith("created="))
     if failed and not _same(b, a):
         return (f"{op} raised {res} but changed the connection: {_Runner.obs_str(b)} -> {_Runner.obs_str(a)}")
@@ -516,11 +728,15 @@ def judge_step(st, ext_seen=False):
             f"{op}({arg['type']}) is illegal in state {b['state']} but gave {res}, expected InvalidStateError")
     counterpart = b["remote"] if side == "local" else b["local"]
     bad = not well_formed(arg)
+    why_bad = ["section %d lacks %s" % (i, "/".join(d)) for i, d in enumerate(media_defects(arg)) if d]
     if arg["type"] == "answer" and (counterpart is None or keys_str(arg["media"]) != keys_str(counterpart["media"])):
         bad = True
+        why_bad.append("media sections %s do not match the offer's %s"
+                       % (keys_str(arg["media"]), keys_str(counterpart["media"]) if counterpart else "-"))
     if bad:
         return None if res == "ValueError" else (
-            f"{op}({arg['type']}) with a defective/mismatched description in state {b['state']} gave {res}, expected ValueError")
+            f"{op}({arg['type']}) with a defective/mismatched description ({'; '.join(why_bad)}) in state {b['state']} gave "
+            f"{res}, expected ValueError")
     if failed:
         return f"legal {op}({arg['type']}) in state {b['state']} raised {res}"
     other = "remote" if side == "local" else "local"
@@ -532,17 +748,115 @@ def judge_step(st, ext_seen=False):
     return None
 
 
+def _pub(o):
+    return (o["state"], slot_str(o["local"]), slot_str(o["remote"]), o["ev"])
+
+
+def _res_class_ok(res):
+    return res in ("ok", "InvalidStateError", "ValueError") or res.startswith("created=")
+
+
+def judge_race(st):
+    """Two calls in flight on one connection.  The property speaks about call SEQUENCES; what it says about any
+    interleaving is that `closed` is absorbing (checked for every observation by `judge_trace`) - so here only: the other
+    peer is untouched, a closed connection stays as it is and rejects both calls, and when one of the two is close() it
+    returns normally, the connection ends up closed and the call it overtook ends in one of the legal result classes."""
+    p, r = st["p"], st["race"]
+    q = 1 - p
+    b, a = st["before"][p], st["after"][p]
+    ops = "%s || %s (k=%d)" % (r["calls"][0]["op"], r["calls"][1]["op"], r["k"])
+    if not _same(st["before"][q], st["after"][q]):
+        return f"{ops} on peer {p} changed the public signalling state of peer {q}"
+    if b["state"] == "closed":
+        if _pub(a) != _pub(b):
+            return f"closed is not absorbing: {ops} changed a closed connection: {_Runner.obs_str(b)} -> {_Runner.obs_str(a)}"
+        for c in r["calls"]:
+            bogus = c["arg"] is not None and c["arg"]["type"] not in ("offer", "answer", "pranswer", "rollback")
+            want = "ok" if c["op"] == "close" else ("ValueError" if bogus else "InvalidStateError")
+            if c["op"] not in EXT_OPS and c["res"] != want:
+                return f"{c['op']} after close (in flight with another call): {c['res']}, expected {want}"
+        return None
+    if any(c["op"] == "close" for c in r["calls"]):
+        for c in r["calls"]:
+            if c["op"] == "close" and c["res"] != "ok":
+                return f"close() in flight with {ops}: result {c['res']}"
+            if c["op"] not in EXT_OPS and c["op"] != "close" and not _res_class_ok(c["res"]):
+                return f"{c['op']} overtaken by close() raised {c['res'][6:]} (neither InvalidStateError nor ValueError)"
+        if a["state"] != "closed":
+            return f"{ops}: close() returned but signalingState is {a['state']}"
+    return None
+
+
+def judge_trace(steps):
+    """The property on the whole observed trace: None or 'step i: why'."""
+    snap = [None, None]      # public state of a peer at the moment a close() on it returned
+    ext_seen = False
+    for i, st in enumerate(steps):
+        # every observation of this step in temporal order: (what, [obs peer 0, obs peer 1], close() returned on peer?)
+        if st["op"] == "race":
+            r = st["race"]
+            points = []
+            for j in r["order"]:
+                c = r["calls"][j]
+                points.append((f"when {c['op']} returned", c["at_return"], st["p"] if c["op"] == "close" and c["res"] == "ok" else None))
+            points.append(("when both calls had returned", r["settled"], None))
+            points.append(("a few turns of the event loop later", r["later"], None))
+        else:
+            closes = st["op"] in ("close", "autoClose") and st["res"] == "ok"
+            points = [(f"after {st['op']}", st["after"], st["p"] if closes else None)]
+        for what, obs, closed_peer in points:
+            for q in (0, 1):
+                if snap[q] is not None and _pub(obs[q]) != snap[q][1]:
+                    return (f"step {i}: closed is not absorbing: close() on peer {q} had returned in step {snap[q][0]} with "
+                            f"{','.join(map(str, snap[q][1]))}, but {what} (peer {st['p']}) peer {q} shows "
+                            f"{_Runner.obs_str(obs[q])}")
+            if closed_peer is not None and snap[closed_peer] is None:
+                o = obs[closed_peer]
+                if o["state"] != "closed":
+                    return f"step {i}: close() on peer {closed_peer} returned but signalingState is {o['state']}"
+                snap[closed_peer] = (i, _pub(o))
+        why = judge_race(st) if st["op"] == "race" else judge_step(st, ext_seen)
+        if why:
+            return f"step {i}: {why}"
+        ext_seen = ext_seen or st["op"] in EXT_OPS or st["op"] == "race"
+    return None
+
+
 # ----------------------------------------------------------------------------------------------------
 
 
-def _with_variants(rng, calls):
+def _nsec(cfg):
+    parts, _ = _cfg_parts(cfg)
+    return max(len(CFG_MEDIA[x]) for x in parts)
+
+
+def _subsets(n):
+    """all non-empty subsets of the first n sections as selector strings"""
+    return ["".join(str(i) for i in range(n) if m >> i & 1) for m in range(1, 1 << n)]
+
+
+def _defect_variant(rng, nsec):
+    if rng.random() < 0.08:
+        return "badtype"
+    typ = rng.choice(["offer", "answer"])
+    what = rng.choice(DEFECT_KINDS[typ])
+    sel = rng.choice(["all"] + _subsets(nsec) * 2)
+    place = "s" if rng.random() < 0.3 else "m"
+    return f"{typ}-{what}-{sel}-{place}"
+
+
+def _mismatch_variants(nsec):
+    return MISMATCH + [f"{v}@{i}" for i in range(nsec) for v in ("mid", "nomid", "drop", "kind")] + ["swap@1"]
+
+
+def _with_variants(rng, calls, nsec=1):
     out = []
     for c in calls:
         p, op = c[0], c[1]
         if op == "setRemoteMismatched":
-            out.append([p, op, rng.choice(MISMATCH)])
+            out.append([p, op, rng.choice(_mismatch_variants(nsec))])
         elif op == "setRemoteDefective":
-            out.append([p, op, rng.choice(DEFECTS)])
+            out.append([p, op, _defect_variant(rng, nsec)])
         elif op in EXT_OPS:
             out.append([p, op, rng.choice(["pranswer", "rollback"])])
         else:
@@ -550,10 +864,88 @@ def _with_variants(rng, calls):
     return out
 
 
+def _prefixes(p):
+    """call sequences that bring peer p into each signalling state (fresh and after a completed negotiation)"""
+    q = 1 - p
+    answered = [[q, "setLocalImplicit"], [p, "setRemoteOffer"], [p, "setLocalImplicit"], [q, "setRemoteAnswer"]]
+    offered = [[p, "setLocalImplicit"], [q, "setRemoteOffer"], [q, "setLocalImplicit"], [p, "setRemoteAnswer"]]
+    return {
+        "stable": [],
+        "have-local-offer": [[p, "setLocalImplicit"]],
+        "have-remote-offer": [[q, "setLocalImplicit"], [p, "setRemoteOffer"]],
+        "stable/answered": answered,
+        "stable/offered": offered,
+        "have-local-offer/again": answered + [[p, "setLocalImplicit"]],
+        "have-remote-offer/again": offered + [[q, "setLocalImplicit"], [p, "setRemoteOffer"]],
+        "closed": [[p, "close"]],
+    }
+
+
+def defect_matrix():
+    """every defect kind x placement (media level / also at session level) x description type x signalling state x media
+    configuration; in each case the defect is applied to EVERY non-empty subset of the m-sections, one call per subset, and a
+    legal call of the same type follows (nothing may have been damaged)"""
+    out = []
+    for cfg in MULTI_CFGS:
+        n = _nsec(cfg)
+        for p in (0, 1):
+            for state, prefix in _prefixes(p).items():
+                for typ in ("offer", "answer"):
+                    for what in DEFECT_KINDS[typ]:
+                        for place in ("m", "s"):
+                            calls = [list(c) for c in prefix]
+                            calls += [[p, "setRemoteDefective", f"{typ}-{what}-{sel}-{place}"] for sel in _subsets(n)]
+                            calls.append([p, "setRemoteOffer" if typ == "offer" else "setRemoteAnswer"])
+                            out.append({"cfg": cfg, "calls": calls, "stream": "defects"})
+    return out
+
+
+def mismatch_matrix():
+    out = []
+    for cfg in MULTI_CFGS:
+        for p in (0, 1):
+            pre = _prefixes(p)
+            for state in ("have-local-offer", "have-local-offer/again", "stable"):
+                calls = [list(c) for c in pre[state]]
+                calls += [[p, "setRemoteMismatched", v] for v in _mismatch_variants(_nsec(cfg))]
+                calls.append([p, "setRemoteAnswer"])
+                out.append({"cfg": cfg, "calls": calls, "stream": "mismatch"})
+    return out
+
+
+RACE_NEG = ["createOffer", "createAnswer", "setLocalOffer", "setLocalAnswer", "setLocalImplicit", "setRemoteOffer",
+            "setRemoteAnswer"]
+RACE_K = [0, 1, 2, 3, 4, 6, 9, 14]
+
+
+def race_matrix(with_close):
+    """two calls in flight on one connection: `first` started as a task, `second` issued after the event loop has been
+    stepped k times; then calls that must find the connection closed (or that close it)"""
+    out = []
+    if with_close:
+        pairs = [(a, "close") for a in RACE_NEG] + [("close", a) for a in RACE_NEG] + [("close", "close")]
+    else:
+        pairs = [(a, b) for a in RACE_NEG for b in RACE_NEG]
+    for cfg in ("dc", "av", "avd"):
+        for p in (0, 1):
+            for state, prefix in _prefixes(p).items():
+                for a, b in pairs:
+                    for k in RACE_K:
+                        calls = [list(c) for c in prefix] + [[p, "race", [a], [b], k]]
+                        if with_close:
+                            calls += [[p, "createOffer"], [p, "setRemoteOffer"], [p, "setLocalImplicit"], [p, "close"]]
+                        else:
+                            calls += [[p, "close"], [p, "setRemoteOffer"]]
+                        out.append({"cfg": cfg, "calls": calls, "stream": "race"})
+    return out
+
+
 class Signaling(Component):
     name = "signaling"
     theorems = ["step_refines_jsep", "run_refines_jsep", "failed_call_no_effect", "illegal_no_effect", "defective_no_effect",
-                "closed_absorbing", "closed_rejects", "no_crash", "implicit_never_fails", "inv_reachable"]
+                "closed_absorbing", "closed_rejects", "no_crash", "implicit_never_fails", "inv_reachable",
+                "defective_section_no_effect", "session_level_covers", "resolve_section_local", "seqStep_eq_step",
+                "closed_absorbing_interleaved", "close_then_anything", "overtaken_by_close_refines_jsep"]
 
     def __init__(self):
         self._cache = {}
@@ -568,6 +960,18 @@ class Signaling(Component):
             # defect #15 (fixes/C14-answer-unmatched-transceiver.patch): answerer owns a transceiver the offer does not match
             {"cfg": "dc|both", "calls": [[0, "setLocalImplicit"], [1, "setRemoteOffer"], [1, "createAnswer"], [1, "setLocalAnswer"]]},
             {"cfg": "dc|both", "calls": [[0, "setLocalImplicit"], [1, "setRemoteOffer"], [1, "setLocalImplicit"], [0, "setRemoteAnswer"]]},
+            # round 2 (ice-credentials-leak-sections): a LATER m-section without credentials, offer and answer; without DTLS setup;
+            # credentials given at session level instead (legal: the offer must be applied)
+            {"cfg": "av", "calls": [[1, "setRemoteDefective", "offer-noufrag-1-m"], [1, "setRemoteOffer"]]},
+            {"cfg": "av", "calls": [[0, "setLocalImplicit"], [0, "setRemoteDefective", "answer-nopwd-1-m"], [0, "setRemoteAnswer"]]},
+            {"cfg": "avd", "calls": [[0, "setRemoteDefective", "offer-nosetup-2-m"], [0, "setRemoteDefective", "offer-nocred-12-s"]]},
+            {"cfg": "avd/u", "calls": [[1, "setLocalImplicit"], [1, "setRemoteDefective", "answer-emptyufrag-1-s"],
+                                       [1, "setRemoteDefective", "answer-actpass-2-m"], [1, "setRemoteDefective", "answer-nosetup-02-s"]]},
+            # round 2 (setremote-assert-hoisted): close() overtakes a call in flight / a call is issued while close() runs
+            {"cfg": "dc", "calls": [[0, "race", ["setRemoteOffer"], ["close"], 2], [0, "setRemoteOffer"], [0, "createOffer"]]},
+            {"cfg": "av", "calls": [[1, "setLocalImplicit"], [1, "race", ["setRemoteAnswer"], ["close"], 1], [1, "createOffer"]]},
+            {"cfg": "av", "calls": [[1, "race", ["close"], ["setRemoteOffer"], 0], [1, "setLocalImplicit"]]},
+            {"cfg": "avd", "calls": [[0, "race", ["setLocalImplicit"], ["close"], 2], [0, "setLocalImplicit"]]},
             # complete negotiation, re-negotiation in the other direction, close
             {"cfg": "both", "calls": [[0, "createOffer"], [0, "setLocalOffer"], [1, "setRemoteOffer"], [1, "createAnswer"],
                                       [1, "setLocalAnswer"], [0, "setRemoteAnswer"], [1, "setLocalImplicit"], [0, "setRemoteOffer"],
@@ -594,7 +998,8 @@ class Signaling(Component):
         for _ in range(n_short):
             n = rng.choice([2, 3, 3])
             seq = [rng.choice(alphabet) for _ in range(n)]
-            out.append({"cfg": rng.choice(["audio", "both"]), "calls": _with_variants(rng, seq)})
+            cfg = rng.choice(["audio", "both", "av", "avd", "avd/u"])
+            out.append({"cfg": cfg, "calls": _with_variants(rng, seq, _nsec(cfg))})
         # random longer sequences, biased towards progress (a walk that mostly follows a legal next call)
         n_rand = 1000 if tier == "quick" else 12000
         for i in range(n_rand):
@@ -618,7 +1023,15 @@ class Signaling(Component):
                 seq.append((rng.randrange(2), op))
             if i % 10 == 0:
                 seq.insert(rng.randrange(len(seq) // 2, len(seq) + 1), (0, "settle"))
-            out.append({"cfg": cfg, "calls": _with_variants(rng, seq)})
+            out.append({"cfg": cfg, "calls": _with_variants(rng, seq, _nsec(cfg))})
+        # defective / mismatched descriptions over multi-section descriptions, systematically (see defect_matrix)
+        dm = defect_matrix()
+        out += dm if tier != "quick" else rng.sample(dm, 280)
+        out += mismatch_matrix()
+        # two calls in flight on one connection
+        rc, rn = race_matrix(True), race_matrix(False)
+        out += rc if tier != "quick" else rng.sample(rc, 420)
+        out += rng.sample(rn, 120 if tier == "quick" else 2500)
         # pranswer / rollback (outside the property's alphabet): ties the model's treatment of them
         n_ext = 150 if tier == "quick" else 2000
         for _ in range(n_ext):
@@ -667,18 +1080,27 @@ class Signaling(Component):
         out, _line, steps = self._get(case)
         if out.startswith("HARNESS-EXC"):
             return "the harness could not run the case: " + out
-        ext_seen = False
-        for i, st in enumerate(steps):
-            why = judge_step(st, ext_seen)
-            if why:
-                return f"step {i}: {why}"
-            ext_seen = ext_seen or st["op"] in EXT_OPS
-        return None
+        return judge_trace(steps)
 
     def label(self, case, impl_out):
         _out, _line, steps = self._get(case)
         if not steps:
             return "empty"
+        stream = case.get("stream")
+        if stream in ("defects", "mismatch"):
+            op = "setRemoteDefective" if stream == "defects" else "setRemoteMismatched"
+            sel = [x for x in steps if x["op"] == op]
+            if sel:
+                var = sel[0]["var"].split("-")
+                kind = "-".join(var[:2] + var[3:]) if stream == "defects" else "*"
+                return (f"{stream}:{kind}@{sel[0]['before'][sel[0]['p']]['state']}:"
+                        + "/".join(sorted({x["res"] for x in sel})))
+        if stream == "race":
+            sel = [x for x in steps if x["op"] == "race"]
+            if sel:
+                r = sel[0]["race"]
+                return (f"race:{r['calls'][0]['op']}||{r['calls'][1]['op']}@{sel[0]['before'][sel[0]['p']]['state']}:"
+                        + "&".join(c["res"].split("/")[0] for c in r["calls"]) + ":" + r["sched"])
         st = steps[-1]
         res = st["res"].split("/")[0]
         lab = f"{st['op']}@{st['before'][st['p']]['state']}:{res}"
@@ -693,8 +1115,23 @@ class Signaling(Component):
         calls = case["calls"]
         for i in range(len(calls) - 1, -1, -1):
             yield dict(case, calls=calls[:i] + calls[i + 1:])
-        if case["cfg"] != "dc":
-            yield dict(case, cfg="dc")
+        for i, c in enumerate(calls):
+            if c[1] == "race":
+                if c[4] > 1:
+                    yield dict(case, calls=calls[:i] + [c[:4] + [c[4] - 1]] + calls[i + 1:])
+                for j in (2, 3):      # the two calls one after the other / one of them alone
+                    yield dict(case, calls=calls[:i] + [[c[0]] + c[j]] + calls[i + 1:])
+            elif c[1] == "setRemoteDefective" and c[2].count("-") == 3:
+                typ, what, sel, place = c[2].split("-")
+                if place != "m":
+                    yield dict(case, calls=calls[:i] + [[c[0], c[1], f"{typ}-{what}-{sel}-m"]] + calls[i + 1:])
+                if sel != "all" and len(sel) > 1:
+                    for ch in sel:
+                        yield dict(case, calls=calls[:i] + [[c[0], c[1], f"{typ}-{what}-{ch}-{place}"]] + calls[i + 1:])
+        if case["cfg"].endswith("/u"):
+            yield dict(case, cfg=case["cfg"][:-2])
+        elif case["cfg"] not in ("dc", "av"):
+            yield dict(case, cfg="av" if _nsec(case["cfg"]) > 2 else "dc")
 
 
 def components(tier):
